@@ -467,12 +467,11 @@ impl<'ast, 'psess, 'c> ModResolver<'ast, 'psess> {
                         module: mod_name.to_string(),
                         kind: ModuleResolutionErrorKind::NotFound { file: file_path },
                     }),
-                    Err(..) => {
-                        if should_insert {
-                            mods_outside_ast.push((file_path, dir_ownership, sub_mod.clone()));
-                        }
-                        Ok(Some(SubModKind::MultiExternal(mods_outside_ast)))
-                    }
+                    // The default file could not be loaded (it went away after it was found):
+                    // the `cfg_attr(path)` candidates are what is left. There is nothing to
+                    // register for the default file -- a stand-in for it would span the
+                    // declaring file.
+                    Err(..) => Ok(Some(SubModKind::MultiExternal(mods_outside_ast))),
                 }
             }
             Err(mod_err) if !mods_outside_ast.is_empty() => {
